@@ -1281,6 +1281,8 @@ from mlmverif.selfcheck import B, OK  # noqa: E402
 _F = 'chainables/tree_fns.py'
 _U = 'utils/iter_utils.py'
 VARIANTS = [
+    OK('fetched-flag-reset-at-both-ends', 'utils/iter_utils.py',
+       "    while not self.enqueue_done:\n      fetched = False\n      try:", "    fetched = False\n    while not self.enqueue_done:\n      fetched = False\n      try:"),
     B('fetched-flag-initialised-once', 'utils/iter_utils.py',
       "    while not self.enqueue_done:\n      fetched = False\n      try:", "    fetched = False\n    while not self.enqueue_done:\n      try:", 'R-C12-23'),
     OK('call-wrapper-names-its-error-first', 'chainables/tree_fns.py',
